@@ -5,15 +5,12 @@ Require Extraction.
 Require Import ExtrOcamlBasic.
 From Coq Require Import NArith List.
 From Carquet Require Import Base.Res Enc.DeltaBits Enc.PlainSpec Enc.PlainModel Enc.BssSpec Enc.BssModel
-  Enc.DeltaSpec Enc.DeltaModel Enc.DeltaLenModel Enc.DeltaStrModel Enc.DictModel Enc.RleModel.
+  Enc.DeltaSpec Enc.DeltaModel Enc.DeltaLenModel Enc.DeltaStrModel Enc.DictModel Enc.RleModel Enc.DictRleInst.
 
-Definition rle_enc (w : N) (ix : list N) : list N := RleModel.encode_all (N.to_nat w) ix.
-Definition rle_dec (w : N) (bs : list N) (max : N) : res (list N) :=
-  Ok (RleModel.decode_all (N.to_nat w) bs (N.to_nat max)).
-
-Definition dict_encode_fixed_i := DictModel.dict_encode_fixed rle_enc.
-Definition dict_encode_byte_array_i := DictModel.dict_encode_byte_array rle_enc.
-Definition dict_decode_fixed_i := DictModel.dict_decode_fixed rle_dec.
+(* the adapter over RleModel.encode_all / decode_all (with the C decoder's width guard) is DictRleInst.rle_enc / rle_dec *)
+Definition dict_encode_fixed_i := DictModel.dict_encode_fixed DictRleInst.rle_enc.
+Definition dict_encode_byte_array_i := DictModel.dict_encode_byte_array DictRleInst.rle_enc.
+Definition dict_decode_fixed_i := DictModel.dict_decode_fixed DictRleInst.rle_dec.
 
 Extraction Language OCaml.
 Extraction "extracted/enc2_ext.ml"
